@@ -41,6 +41,13 @@ def Ctl.isK : Ctl → Bool
   | .kShowPart | .kShowLoop | .kKillLoop | .kPushLoop | .kPullLoop => true
   | _ => false
 
+/-- the public operations (frames a user can push) -/
+def Ctl.isOp : Ctl → Bool
+  | .opPostAnte _ | .opCollect | .opPostBlind _ | .opBurn _ | .opDealHole _ _ | .opDealBoard _
+  | .opDraw _ | .opFold | .opCall | .opBringIn | .opCbr _ | .opRunout _ _ | .opShow _ _
+  | .opKill _ | .opPush | .opPull _ | .opNoOp => true
+  | _ => false
+
 /-- the phase a `_begin/_update/_end` frame belongs to -/
 def Ctl.phase? : Ctl → Option Phase
   | .beginAnte | .updAnte _ | .endAnte => some .ante
